@@ -3,7 +3,7 @@
    (+ VM/SortLemmas.v), concrete witnesses in VM/Witness.v and VM/NonVac.v. *)
 From Coq Require Import String List.
 From NV Require Import Base.Show VM.Value VM.Ast VM.Bytecode VM.Compile VM.Machine VM.RefSem VM.Exec
-     VM.Proofs VM.ProofsErr VM.Witness VM.NonVac.
+     VM.Proofs VM.ProofsErr VM.RefMono VM.Witness VM.NonVac.
 
 (* MAIN THEOREM — whole programs.  For every instance of the primitive operations,
    every program p of the modelled language (let with shadowing, fn with parameters and
@@ -23,6 +23,15 @@ Theorem C09_compile_correct :
     exists m, Machine.run O (compile (procs O) p) m = Ok (out, v).
 Proof. exact @compile_correct. Qed.
 Print Assumptions C09_compile_correct.
+
+(* "The value given by the language's evaluation rules" is well defined: the outcome of
+   the reference semantics does not depend on the fuel once it is definite (a value, a
+   runtime error or Wrong). *)
+Theorem C09_reference_deterministic :
+  forall (Q : Type) (O : ops Q) lits (n n' : nat) (p : program Q) r r',
+    RefSem.run O lits n p = r -> RefSem.run O lits n' p = r' -> r <> Fuel -> r' <> Fuel -> r = r'.
+Proof. exact @run_unique. Qed.
+Print Assumptions C09_reference_deterministic.
 
 (* PARTIAL no-stuck: on every program whose reference evaluation succeeds the
    machine never panics and never raises an error, whatever fuel it is given.  (Not
